@@ -446,7 +446,6 @@ int verify_annotations(struct jls_rd_s *rd, const model_t *m, int sig, const ver
             v_violation("C11", key, wj, "annotation %zu differs in %s (ts %lld vs %lld, size %u vs %u)", i, what, (long long) c.a[i].ts, (long long) exp[i].ts, c.a[i].size, exp[i].size);
             bad = 1; break;
         }
-        if (c.corrupt) { v_violation("C11", "full|reserved-nonzero", wj, "reserved annotation fields non-zero"); bad = 1; }
     }
     v_count("C11", "annotations_compared", (int64_t) n);
     free(c.a);
